@@ -404,6 +404,23 @@ func (c *Ctx) minLenAt(n ast.Node, base string, stop ast.Node) int64 {
 	child := n
 	for p := c.Parent(n); p != nil; child, p = p, c.Parent(p) {
 		switch x := p.(type) {
+		case *ast.BinaryExpr:
+			// short circuit: in `a && b` the operand b is evaluated only when a held,
+			// in `a || b` only when a did not
+			if x.Y == child {
+				switch x.Op {
+				case token.LAND:
+					for _, cj := range conjuncts(x.X) {
+						t, _ := c.lenBound(cj, base)
+						upd(t)
+					}
+				case token.LOR:
+					if len(conjuncts(x.X)) == 1 {
+						_, f := c.lenBound(x.X, base)
+						upd(f)
+					}
+				}
+			}
 		case *ast.IfStmt:
 			if x.Body == child {
 				for _, cj := range conjuncts(x.Cond) {
